@@ -5,6 +5,7 @@ def compare_suffix_probe : List Nat := [2, 2, 2, 1, 0, 1, 1, 2, 2, 1, 0, 2]
 def progressing_probe : List Bool := [true, false, false, false, false, false, false, false, true, false, true, false]
 def question_match_probe : List Bool := [true, true, false, false, false, false, false, false]
 def shape_answer_clears_sections : Bool := true
+def shape_answer_filters_before_splice : Bool := true
 def shape_delegation_guard_first : Bool := true
 def shape_exchange_checks_question : Bool := true
 def shape_lookup_applies_rule : Bool := true
